@@ -186,11 +186,12 @@ def catalogue():
         for d in sorted(refs.iterdir()):
             patch = d / "patch.diff"
             if patch.exists():
-                why = ""
+                why, allow = "", False
                 if (d / "meta.json").exists():
-                    why = json.loads((d / "meta.json").read_text()).get("summary", "")
+                    m = json.loads((d / "meta.json").read_text())
+                    why, allow = m.get("summary", ""), bool(m.get("allow_undecided"))
                 out.append({"id": f"refactor-{d.name}", "kind": "patch", "patch": str(patch), "props": [],
-                            "expect": "silent", "why": why[:160]})
+                            "expect": "silent", "allow_undecided": allow, "why": why[:160]})
     return out
 
 
@@ -204,7 +205,10 @@ def run(props_filter=None, ids=None, jobs=None):
         if props_filter and not (set(props) & set(props_filter)) and v.get("expect") != "silent":
             continue
         if v.get("expect") == "silent":
-            props = props_filter or props
+            # a behaviour-preserving change must keep EVERY property's check quiet
+            from lcmsa import registry
+
+            props = props_filter or sorted(registry.PROPERTIES)
         work.append((v, list(props)))
     jobs = jobs or min(16, os.cpu_count() or 4)
     with ProcessPoolExecutor(max_workers=jobs) as ex:
